@@ -398,8 +398,9 @@ struct Run {
     std::string observe()
     {
         std::string d;
-        for (const std::string& l : e.takeOutput()) { if (!d.empty()) d += ","; d += esc(l); }
-        if (d.empty()) d = "-";
+        size_t n = 0;
+        for (const std::string& l : e.takeOutput()) { if (n++) d += ","; d += esc(l); }
+        if (!n) d = "-";
         char b[64];
         std::snprintf(b, sizeof b, " idle=%d waiting=%d", e.ctx->IsIdle() ? 1 : 0, e.director().GetTimerList().HasAnyElement() ? 1 : 0);
         return d + b;
